@@ -93,11 +93,12 @@ def check_word(r, w, fam, containers=('f', 'i', 'l')):
     if n <= 6:
         # the statement is exact and scale-free: the same pattern at 1e-9 of the amplitude, and riding on a large level with tiny steps
         # (steps below 1e-8 absolute / 1e-5 relative are still steps)
-        extra = extra + ('x1e-9', 'offset1e3+x1e-7')
+        extra = extra + ('x1e-9', 'offset1e3+x1e-7', 'x1e-170', 'x1e300')   # products of two steps under- / overflow at the last two
     for c in tuple(containers) + extra:
         arr = (np.array(w, dtype=float) if c == 'f' else np.array(w, dtype=np.int64) if c == 'i' else np.array(w, dtype=np.uint8) if c == 'u8'
                else (np.array(w) * 100).astype(np.int16) if c == 'i16x100' else np.array(w, dtype=float) * 1e-9 if c == 'x1e-9'
-               else 1000.0 + np.array(w, dtype=float) * 1e-7 if c == 'offset1e3+x1e-7' else list(w))
+               else 1000.0 + np.array(w, dtype=float) * 1e-7 if c == 'offset1e3+x1e-7' else np.array(w, dtype=float) * 1e-170 if c == 'x1e-170'
+               else np.array(w, dtype=float) * 1e300 if c == 'x1e300' else list(w))
         sub = dict(sub0, input=c)
         ok, got = r.call('all', sub, pc.get_peak_array_indices, arr)
         if ok:
